@@ -1,0 +1,87 @@
+//go:build verif
+
+package ucon
+
+import (
+	"math/big"
+
+	"github.com/youchainhq/go-youchain/common"
+)
+
+// Seams for the deterministic simulator (/verif). Nothing here adds behaviour: the timer
+// bodies below are the bodies of the two timerLoop cases, the getters return the real
+// unexported methods as function values.
+
+// SimTimers, when true, keeps timerLoop from running: the simulator polls the two timers
+// itself, because a select over two timers that are due at the same (simulated) instant picks
+// pseudo-randomly from a source that cannot be seeded.
+var SimTimers bool
+
+func simTimerLoop(tm *TimerManager) bool { return SimTimers }
+
+// SimTryTimeout runs the body of timerLoop's timeout case if the timeout timer has fired.
+func (tm *TimerManager) SimTryTimeout() bool {
+	if tm.timeoutTimer == nil {
+		return false
+	}
+	select {
+	case <-tm.timeoutTimer.C:
+		tm.timeoutTimer.Stop()
+		tm.processTimeoutFn(tm.round, tm.maxRoundIndex)
+		return true
+	default:
+		return false
+	}
+}
+
+// SimTryStep runs the body of timerLoop's step case if the step timer has fired.
+func (tm *TimerManager) SimTryStep() bool {
+	if tm.stepTimer == nil {
+		return false
+	}
+	select {
+	case <-tm.stepTimer.C:
+		tm.counter += 1
+		tm.processStepFn(tm.counter)
+		tm.stepTimer.Reset(tm.currentStepInterval)
+		return true
+	default:
+		return false
+	}
+}
+
+// SimTimer exposes the engine's timer manager (nil before StartMining).
+func (s *Server) SimTimer() *TimerManager { return s.timer }
+
+// SimVoter exposes the engine's voter (nil before StartMining).
+func (s *Server) SimVoter() *Voter { return s.voter }
+
+// SimContext reports the engine's current (round, round index).
+func (s *Server) SimContext() (*big.Int, uint32) { return s.currentRound, s.roundIndex }
+
+// SimUpdateContext returns the real (*Voter).updateContext.
+func (v *Voter) SimUpdateContext() func(ContextChangeEvent) { return v.updateContext }
+
+// SimProcessVoteMsg returns the real (*Voter).processVoteMsg.
+func (v *Voter) SimProcessVoteMsg() ProcessVoteMsg { return v.processVoteMsg }
+
+// SimHandlers returns the real message handlers of a Proposal.
+func (p *Proposal) SimHandlers() (ProcessPriorityMsg, ProcessProposedBlockMsg) {
+	return p.processPriorityMessage, p.processProposedBlockMsg
+}
+
+// SimUpdateContext returns the real (*Proposal).updateContext.
+func (p *Proposal) SimUpdateContext() func(ContextChangeEvent) { return p.updateContext }
+
+// SimBlockWithMaxPriority / SimBlockInCache return the real look-ups a Voter is wired to.
+func (p *Proposal) SimLookups() (BlockHashWithMaxPriorityFn, GetBlockInCacheFn) {
+	return p.blockhashWithMaxPriority, p.getBlockInCache
+}
+
+// SimMsgCodes lists the wire codes of the consensus messages.
+func SimMsgCodes() (priority, block, prevote, precommit, next, certificate MsgType) {
+	return msgPriorityProposal, msgBlockProposal, msgPrevote, msgPrecommit, msgNext, msgCertificate
+}
+
+// SimVoteMsgAddr returns the sender address HandleMsg recovered for a cached vote message.
+func (m *CachedVotesMessage) SimAddr() common.Address { return m.addr }
